@@ -36,6 +36,11 @@ def _dump_on_usr1():
 
 def _task(args):
     _dump_on_usr1()
+    marker = os.environ.get('PYVC_CRASH_ONCE')      # self-test of the pool's crash recovery (tools/crashtest.sh)
+    if marker and not os.path.exists(marker):
+        open(marker, 'w').close()
+        import signal
+        os.kill(os.getpid(), signal.SIGSEGV)
     target, variant, tier = args[:3]
     cid = args[3] if len(args) > 3 else None
     from pyvc.verify import verify_function, verify_lemma
@@ -67,6 +72,54 @@ def _task(args):
             'queries': r.queries, 'inlined': sorted(r.inlined), 'by_contract': sorted(r.by_contract),
             'externals': sorted(r.externals), 'source': r.source, 'vacuity': r.vacuity,
             'assumed': bool(con and con.assumed)}
+
+
+def _run_tasks(tasks, jobs):
+    """run the verification tasks in worker processes; a worker that dies (libz3 has been seen to segfault under the
+    watchdog's interrupt) must neither hang the check nor lose its task: the unfinished tasks are re-run in a fresh
+    pool, then one by one; a task that kills its worker three times is reported as an engine error (exit 3)"""
+    from concurrent.futures import ProcessPoolExecutor, as_completed
+    from concurrent.futures.process import BrokenProcessPool
+    deadline = float(os.environ.get('VERIF_TASK_TIMEOUT', '3000'))
+    done = {}
+    pending = list(range(len(tasks)))
+    for attempt in range(3):
+        if not pending:
+            break
+        width = min(jobs, len(pending)) if attempt < 2 else 1
+        groups = [pending] if attempt < 2 else [[i] for i in pending]
+        for grp in groups:
+            ex = ProcessPoolExecutor(max_workers=min(width, len(grp)))
+            futs = {ex.submit(_task, tasks[i]): i for i in grp}
+            try:
+                for f in as_completed(futs, timeout=deadline):
+                    i = futs[f]
+                    try:
+                        done[i] = f.result()
+                    except BrokenProcessPool:
+                        pass
+                    except Exception as e:      # noqa
+                        done[i] = _failed_task(tasks[i], f'{type(e).__name__}: {e}')
+            except TimeoutError:
+                for f, i in futs.items():
+                    if i not in done and not f.done():
+                        done[i] = _failed_task(tasks[i], f'no verdict within {deadline:.0f} s (VERIF_TASK_TIMEOUT)')
+            finally:
+                for pr in list(getattr(ex, '_processes', {}).values()):
+                    if pr.is_alive() and any(i not in done for i in grp):
+                        pr.kill()
+                ex.shutdown(wait=False, cancel_futures=True)
+        pending = [i for i in pending if i not in done]
+    for i in pending:
+        done[i] = _failed_task(tasks[i], 'the worker process died three times on this task (solver crash)')
+    return [done[i] for i in range(len(tasks))]
+
+
+def _failed_task(args, msg):
+    return {'target': args[0], 'variant': args[1], 'contract': args[3] if len(args) > 3 else None, 'obligations': [],
+            'paths': 0, 'normal_paths': 0, 'exc_paths': 0, 'error': msg, 'seconds': 0.0, 'solver_seconds': 0.0,
+            'queries': 0, 'inlined': [], 'by_contract': [], 'externals': [], 'source': None, 'vacuity': None,
+            'assumed': False}
 
 
 def load_findings():
@@ -147,10 +200,7 @@ def main():
     for modname, node, kw in w.reg.lemmas:
         if a.prop in kw.get('props', []):
             tasks.append((f'{modname}:{node.name}', '@lemma', tier))
-    results = []
-    if tasks:
-        with mp.Pool(min(a.jobs, len(tasks))) as pool:
-            results = pool.map(_task, tasks, chunksize=1)
+    results = _run_tasks(tasks, a.jobs) if tasks else []
     # syntactic / structural obligations of the property (single-writer scans, table comparisons, ...)
     extra = propmod.run_extra(a.prop, w, tier)
     findings = load_findings()
